@@ -1,7 +1,10 @@
 package execfam
 
 import (
+	"bytes"
 	"context"
+	"os/exec"
+	"time"
 	"errors"
 	"fmt"
 	"io"
@@ -17,6 +20,7 @@ import (
 	"mvdan.cc/sh/v3/interp"
 
 	"verifharness/probe"
+	"verifharness/rep"
 )
 
 // Job is one real execution: a program and a release policy.
@@ -265,3 +269,57 @@ func Run(job Job, scratch string) (res Result) {
 	return
 }
 
+
+// RunCLI runs the program through the task binary (probes do not block: stdout is discarded) and
+// returns the exit status; exitCode adds --exit-code.
+func RunCLI(p *Program, exitCode bool) (int, string, error) {
+	dir, err := os.MkdirTemp("/dev/shm", "xc")
+	if err != nil {
+		return 0, "", err
+	}
+	defer os.RemoveAll(dir)
+	if err := os.WriteFile(filepath.Join(dir, "Taskfile.yml"), []byte(p.Taskfile()), 0o644); err != nil {
+		return 0, "", err
+	}
+	r := p.Roots[0]
+	args := []string{r.Task, "P=r1"}
+	if strings.Contains(r.V, "+") {
+		f := strings.SplitN(r.V, "+", 2)
+		args = append(args, "V="+f[0], "W="+f[1])
+	} else if r.V != "" {
+		args = append(args, "V="+r.V)
+	}
+	if p.N > 0 {
+		args = append(args, "--concurrency", fmt.Sprint(p.N))
+	}
+	if p.Force {
+		args = append(args, "--force")
+	}
+	if p.ForceAll {
+		args = append(args, "--force-all")
+	}
+	if p.Yes {
+		args = append(args, "--yes")
+	}
+	if exitCode {
+		args = append(args, "--exit-code")
+	}
+	ctx, cancel := context.WithTimeout(context.Background(), 30*time.Second)
+	defer cancel()
+	cmd := exec.CommandContext(ctx, rep.Root+"/.work/bin/task", args...)
+	cmd.Dir = dir
+	cmd.Cancel = func() error { return cmd.Process.Kill() }
+	var out bytes.Buffer
+	cmd.Stderr = &out
+	err = cmd.Run()
+	if ctx.Err() != nil {
+		return 0, "", fmt.Errorf("timeout")
+	}
+	if err != nil {
+		if ee, ok := err.(*exec.ExitError); ok {
+			return ee.ExitCode(), out.String(), nil
+		}
+		return 0, "", err
+	}
+	return 0, out.String(), nil
+}
